@@ -11,11 +11,16 @@ ASSUMPTIONS = ["shares compared exactly; cash within 1e-11 x (|endowment| + sum 
 BUDGET = {"quick": 300, "thorough": 48000}
 REQUIRED = {
     "quick": {"fills": 3000, "class/run_with_self_trade": 20, "class/run_with_round_of_3plus_fills": 20,
-              "class/run_with_fills_on_hft_path": 20, "holdings_comparisons": 20000, "total_checks": 1000},
+              "class/run_with_fills_on_hft_path": 20, "holdings_comparisons": 20000, "total_checks": 1000,
+              "class/run_with_fills_at_price_zero": 4},
     "thorough": {"fills": 100000, "class/run_with_self_trade": 500, "class/run_with_round_of_3plus_fills": 500,
-                 "class/run_with_fills_on_hft_path": 500, "holdings_comparisons": 500000, "total_checks": 30000},
+                 "class/run_with_fills_on_hft_path": 500, "holdings_comparisons": 500000, "total_checks": 30000,
+                 "class/run_with_fills_at_price_zero": 250},
 }
 
 
 def extra_checks(case, res, out, mon):
-    pass
+    n0 = sum(1 for l in out.fills if l.price == 0)
+    if n0:
+        res.count("class/run_with_fills_at_price_zero")
+        res.count("fills_at_price_zero", n0)
